@@ -13,6 +13,9 @@ import (
 	"strings"
 	"sync"
 	"testing"
+	"time"
+
+	"github.com/gorilla/websocket"
 
 	"github.com/0xReLogic/Helios/internal/config"
 	"github.com/0xReLogic/Helios/internal/loadbalancer"
@@ -96,7 +99,9 @@ func TestVerifDriver(t *testing.T) {
 		}
 		w := strings.Fields(line)
 		res := "bad-op"
-		if len(w) >= 2 && (w[0] == "cfg" || w[0] == "cfgfile") {
+		if len(w) == 3 && w[0] == "ws" {
+			res = wsSession(w[1], w[2])
+		} else if len(w) >= 2 && (w[0] == "cfg" || w[0] == "cfgfile") {
 			res = loadAndStart(w[1])
 		} else if len(w) >= 2 && w[0] == "id" {
 			switch w[1] {
@@ -274,4 +279,111 @@ func loadAndStart(path string) (res string) {
 		return "load=ok start=err"
 	}
 	return "load=ok start=ok"
+}
+
+// wsSession: a WebSocket session through the real handler composition with the given plugin
+// chain; every message (sizes given, text/binary alternating) must come back unmodified and
+// in order from the echo backend, and closing the client side must close the backend side.
+func wsSession(chain, sizes string) string {
+	up := websocket.Upgrader{}
+	backendClosed := make(chan struct{})
+	backend := httptest.NewServer(http.HandlerFunc(func(w http.ResponseWriter, r *http.Request) {
+		c, err := up.Upgrade(w, r, nil)
+		if err != nil {
+			return
+		}
+		defer close(backendClosed)
+		defer c.Close()
+		for {
+			mt, msg, err := c.ReadMessage()
+			if err != nil {
+				return
+			}
+			// echo, and push one unsolicited message after each to interleave directions
+			if err := c.WriteMessage(mt, msg); err != nil {
+				return
+			}
+			if err := c.WriteMessage(websocket.TextMessage, []byte(fmt.Sprintf("ack:%d", len(msg)))); err != nil {
+				return
+			}
+		}
+	}))
+	defer backend.Close()
+	cfg := &config.Config{}
+	cfg.LoadBalancer.Strategy = "round_robin"
+	cfg.Backends = []config.BackendConfig{{Name: "b0", Address: backend.URL}}
+	cfg.Logging.RequestID.Enabled = true
+	if chain != "none" {
+		cfg.Plugins.Enabled = true
+		for _, p := range strings.Split(chain, "+") {
+			switch p {
+			case "log":
+				cfg.Plugins.Chain = append(cfg.Plugins.Chain, config.PluginConfig{Name: "logging"})
+			case "sl":
+				cfg.Plugins.Chain = append(cfg.Plugins.Chain, config.PluginConfig{Name: "size_limit", Config: map[string]interface{}{}})
+			case "gz":
+				cfg.Plugins.Chain = append(cfg.Plugins.Chain, config.PluginConfig{Name: "gzip", Config: map[string]interface{}{"level": 5, "min_size": 10, "content_types": []interface{}{"text/"}}})
+			case "hdr":
+				cfg.Plugins.Chain = append(cfg.Plugins.Chain, config.PluginConfig{Name: "headers", Config: map[string]interface{}{"set": map[string]interface{}{"X-App": "Helios"}}})
+			case "rid":
+				cfg.Plugins.Chain = append(cfg.Plugins.Chain, config.PluginConfig{Name: "request-id"})
+			}
+		}
+	}
+	lb, err := loadbalancer.NewLoadBalancer(cfg)
+	if err != nil {
+		return "ws setup-error"
+	}
+	defer lb.Stop()
+	h, err := buildHandler(cfg, lb)
+	if err != nil {
+		return "ws setup-error"
+	}
+	front := httptest.NewServer(h)
+	defer front.Close()
+	hdr := http.Header{}
+	hdr.Set("Accept-Encoding", "gzip")
+	c, resp, err := websocket.DefaultDialer.Dial("ws"+strings.TrimPrefix(front.URL, "http")+"/ws", hdr)
+	if err != nil {
+		code := 0
+		if resp != nil {
+			code = resp.StatusCode
+		}
+		return fmt.Sprintf("ws dial-failed status=%d", code)
+	}
+	n := 0
+	for i, sz := range strings.Split(sizes, ",") {
+		var size int
+		fmt.Sscan(sz, &size)
+		msg := make([]byte, size)
+		for j := range msg {
+			msg[j] = byte('a' + (i+j)%23)
+		}
+		mt := websocket.TextMessage
+		if i%2 == 1 {
+			mt = websocket.BinaryMessage
+			for j := range msg {
+				msg[j] = byte((i*7 + j*13) % 256)
+			}
+		}
+		if err := c.WriteMessage(mt, msg); err != nil {
+			return fmt.Sprintf("ws write-failed at %d", i)
+		}
+		gt, got, err := c.ReadMessage()
+		if err != nil || gt != mt || string(got) != string(msg) {
+			return fmt.Sprintf("ws mismatch at message %d (size %d)", i, size)
+		}
+		_, ack, err := c.ReadMessage()
+		if err != nil || string(ack) != fmt.Sprintf("ack:%d", size) {
+			return fmt.Sprintf("ws ack mismatch at message %d", i)
+		}
+		n++
+	}
+	c.Close()
+	select {
+	case <-backendClosed:
+	case <-time.After(5 * time.Second):
+		return "ws backend-not-closed"
+	}
+	return fmt.Sprintf("ws ok %d", n)
 }
